@@ -524,14 +524,23 @@ class Table(Vector):
 			simulated[idx] = new  # simulate rename
 
 		# Apply renames for real
-		for old, new in zip(old_names, new_names):
-			# rename the FIRST matching column in the real table
-			for col in self._underlying:
-				if col._name == old:
-					col._name = new
-					break
+		previous = [(col._name, col._wild) for col in self._underlying]
+		try:
+			for old, new in zip(old_names, new_names):
+				# rename the FIRST matching column in the real table
+				for col in self._underlying:
+					if col._name == old:
+						col._name = new
+						break
 
-		self._column_map = self._build_column_map()
+			self._column_map = self._build_column_map()
+		except BaseException:
+			# the accessors of the new names could not be worked out (a label without a
+			# text, a duplicate-name warning turned into an error): no column is renamed
+			for col, (name, wild) in zip(self._underlying, previous):
+				col._name = name
+				col._wild = wild
+			raise
 		return self
 
 	@property
